@@ -113,6 +113,12 @@ func genLife(g *vh.Gen) string {
 func gen(g *vh.Gen) {
 	// the assembled system (server.FullAssembly + Services.Start), one child process per case
 	asmsys.Gen(g, "asm19")
+	// every subset of the listeners failing to bind, scanner enabled / disabled
+	for _, m := range []string{"000", "100", "010", "001", "110", "101", "011", "111"} {
+		g.Emit("boot", m, "1h")
+	}
+	g.Emit("boot", "000", "0s")
+	g.Emit("boot", "010", "0s")
 	// the orderings the model enumerates for one session in each protocol state
 	for _, st := range []string{"", "helo", "mail", "rcpt", "data", "body"} {
 		pre := "o0:S"
